@@ -303,15 +303,16 @@ func (e dent) coq() string {
 	if e.issuer >= 0 {
 		iss = fmt.Sprintf("(Some %d)", e.issuer)
 	}
-	vis := e.vis
+	// the visible content as one small number (the model's fields are unary naturals: the tag is a mixed-radix code of the
+	// bounded edit counters, not a sum of large multiples)
+	pv := 0
 	if e.prof {
-		vis += 1000 * (profVersion + 1) // the visible content includes what the profile contributes
+		pv = profVersion%6 + 1
 	}
-	vis += 100000 * e.vver   // the validity block is part of the visible content
-	vis += 10000000 * e.sver // so is the serial number
 	inheritsExpired := e.prof && profExpired && e.vstyle == 3
+	vis := e.vis%6 + 6*(e.vver%4) + 24*(e.sver%4) + 96*pv
 	if inheritsExpired {
-		vis += 500
+		vis += 672
 	}
 	return fmt.Sprintf("(mkCfg %s %d %d 0 %s %s %s %s true)", iss, e.subj, vis, ktn(e.krsa), ktn(e.srsa), bs(!(e.prof && profStrict)), bs(e.vstyle != 5 && !inheritsExpired))
 }
@@ -732,7 +733,7 @@ func oneHistory(h int, faults bool) {
 			lastStrat, lastOk = strat, res == "ok" && !faulty
 			continue
 		case r < 52:
-			if ents[i].serial && rng.Intn(2) == 0 {
+			if ents[i].serial && ents[i].sver < 3 && rng.Intn(2) == 0 {
 				ents[i].sver++ // only the serial number changes
 				forceDefault = lastOk || rng.Intn(2) == 0
 			} else {
@@ -741,11 +742,13 @@ func oneHistory(h int, faults bool) {
 			putcfg(i)
 			ops = append(ops, fmt.Sprintf("U (OpEditCfg %d %s)", i, ents[i].coq()))
 		case r < 62:
-			if rng.Intn(2) == 0 && ents[i].vstyle != 3 {
+			if rng.Intn(2) == 0 && ents[i].vstyle != 3 && ents[i].vver < 3 {
 				ents[i].vver++ // only the validity block changes
 				forceDefault = lastOk || rng.Intn(2) == 0
-			} else {
+			} else if ents[i].vis < 5 {
 				ents[i].vis++
+			} else {
+				ents[i].subj++
 			}
 			putcfg(i)
 			ops = append(ops, fmt.Sprintf("U (OpEditCfg %d %s)", i, ents[i].coq()))
@@ -771,7 +774,11 @@ func oneHistory(h int, faults bool) {
 			case 1:
 				profExpired = !profExpired
 			default:
-				profVersion++
+				if profVersion < 5 {
+					profVersion++
+				} else {
+					profStrict = !profStrict
+				}
 			}
 			m["profiles/shared.yaml"] = &fstest.MapFile{Data: []byte(profileYaml()), Mode: 0644, ModTime: dtm(clock)}
 			var l []string
